@@ -44,6 +44,8 @@ class Unsupported(Exception):
 
 ALL = ["*"]
 ITEMS = ["[]"]
+# fields that hold a container owned exclusively by the object (QobjEvo)
+OWNERSHIP_FIELDS = ("elements", "_feedback_functions", "_solver_only_feedback")
 EVO_FIELDS = ["elements", "_dims", "shape", "_feedback_functions",
               "_solver_only_feedback"]
 
@@ -97,6 +99,7 @@ FUNCS = [
     ("_StochasticRHS.__init__", "qutip/solver/stochastic.py", "_StochasticRHS.__init__", ["self"], None),
     ("BRSolver.__init__", "qutip/solver/brmesolve.py", "BRSolver.__init__", ["self"], None),
     ("brmesolve", "qutip/solver/brmesolve.py", "brmesolve", ["kwargs"], None),
+    ("krylovsolve", "qutip/solver/krylovsolve.py", "krylovsolve", [], None),
     ("FMESolver.__init__", "qutip/solver/floquet.py", "FMESolver.__init__", ["self"], None),
     ("StochasticSolver.__init__", "qutip/solver/stochastic.py", "StochasticSolver.__init__", ["self"], "MultiTrajSolver"),
     ("smesolve", "qutip/solver/stochastic.py", "smesolve", ["kwargs"], None),
@@ -618,6 +621,14 @@ class Compiler:
                 self.assign(out, t, self.call_ir(s["mut"], NEW, [b, val]))
             else:
                 self.fields.add(tg.attr)
+                if tg.attr in OWNERSHIP_FIELDS:
+                    # representation invariant: these fields only ever receive a
+                    # container created here (never one that belongs to another
+                    # object).  Encoded as a callee that writes nothing to its
+                    # argument 0 but must be allowed to: the checker rejects it
+                    # unless `val` is certainly a new object.
+                    t = self.temp()
+                    self.assign(out, t, self.call_ir([(0, [])], NEW, [val]))
                 out.append("SStore %s %s %s" % (q(b), q(tg.attr), q(val)))
         elif isinstance(tg, ast.Subscript):
             b = self.expr(tg.value, out)
